@@ -21,9 +21,9 @@ from checks import c03
 META = {
     "id": "C05",
     "level": "proof",
-    "technique": "Coq invariant proof (perfect matching of the idle block preserved by certified picks, completions and re-sorting, over arbitrary operation sequences) + bounded exhaustive termination theorem for sort_trajstate + certified trace validation and exhaustive lock-step of the sorting loop against the real code",
-    "text": "Unbounded theorems: in every state reachable by picks that have non-zero probability (certified by a perfect matching through the picked pair), re-issued jobs and completions in any order with any outcome, the idle block of the weight matrix admits a perfect matching; for any idle slot a certified pick exists and is accepted (a job can always be drawn); after every completed step every slot holds a path with non-zero weight there (what load_paths asserts on the restart file written at that moment); live paths are distinct and below the next path number, which never decreases; when the sorting loop returns no slot needs moving. Bounded theorem (bound in the statement): for all staircase weight matrices with up to 4 plus ensembles and every busy set with valid busy slots and a matchable idle block the literal sort_trajstate loop ends without error within n^2 swaps. Tie: certified trace validation of the real scheduler()/REPEX_state (as C03) and exhaustive lock-step of sort_trajstate on all staircase states up to 5 (quick) / 6 (thorough) plus ensembles.",
-    "note": "Trusted: Coq kernel; extraction + OCaml driver; harness. General-size termination of the sorting loop is NOT proved (bounded exhaustive theorem for <= 4 plus ensembles, exhaustive lock-step of model and code up to 6); weight rows are assumed staircase (shooting: by construction; wire fencing: when the order parameter does not jump over a whole region — true for the lattice engine). That P_ij > 0 iff (i, j) lies on a perfect matching is perm_pos_iff_matching (C02's domain); here the certificate is computed by the harness and checked by the model.",
+    "technique": "Coq invariant proof (perfect matching of the idle block preserved by certified picks, completions and re-sorting, over arbitrary operation sequences) + termination proof of the literal sort_trajstate loop for staircase rows of any size (lexicographic measure, pigeonhole on the matching) + certified trace validation and exhaustive lock-step of the sorting loop against the real code",
+    "text": "Unbounded theorems: in every state reachable by picks that have non-zero probability (certified by a perfect matching through the picked pair), re-issued jobs and completions in any order with any outcome, the idle block of the weight matrix admits a perfect matching; for any idle slot a certified pick exists and is accepted (a job can always be drawn); after every completed step every slot holds a path with non-zero weight there (what load_paths asserts on the restart file written at that moment); live paths are distinct and below the next path number, which never decreases; when the sorting loop returns no slot needs moving. C05_sort_terminates (unbounded): on every state satisfying the exclusivity invariant, with a matchable idle block and staircase weight rows of full length, the literal sort_trajstate loop ends without error within n(n+1)+n+1 swaps, leaves no slot that needs moving and preserves all of this (the first badly placed slot never moves left; while it stays, the row in it gets strictly longer). A bounded exhaustive version (<= 4 plus ensembles) is kept as well. Tie: certified trace validation of the real scheduler()/REPEX_state (as C03) and exhaustive lock-step of sort_trajstate on all staircase states up to 5 (quick) / 6 (thorough) plus ensembles.",
+    "note": "Trusted: Coq kernel; extraction + OCaml driver; harness. Termination of the sorting loop is proved for staircase rows of any size; the staircase hypothesis (and full row length) is evaluated on every recorded real state before re-sorting (counted in the evidence: staircase_states / non_staircase_states); weight rows are staircase (shooting: by construction; wire fencing: when the order parameter does not jump over a whole region — true for the lattice engine). That P_ij > 0 iff (i, j) lies on a perfect matching is perm_pos_iff_matching (C02's domain); here the certificate is computed by the harness and checked by the model.",
     "design_ref": "4/C05",
 }
 LEVEL = "proof"
